@@ -678,3 +678,56 @@ func (tb *TB) sliceHyps(pc, neg *Term) *Term {
 	}
 	return tb.And(out...)
 }
+
+
+// hashCongruence: the abstract digest update uf_hupd(h, elems, off, len) depends on the covered bytes only.
+// For every pair of applications with the same initial state occurring in the query the ground instance
+//   off1 = off2 /\ len1 = len2 /\ (forall i in [0,len): e1[off1+i] = e2[off2+i])  ==>  hupd1 = hupd2
+// is added (the universal premise is skolemised, so the instance is quantifier-free).
+func (tb *TB) hashCongruence(asserts []*Term) []*Term {
+	var apps []*Term
+	seen := map[int]bool{}
+	var walk func(t *Term)
+	walk = func(t *Term) {
+		if seen[t.ID] {
+			return
+		}
+		seen[t.ID] = true
+		if t.Op == "uf:uf_hupd" && len(t.Args) == 4 {
+			apps = append(apps, t)
+		}
+		for _, a := range t.Args {
+			walk(a)
+		}
+	}
+	for _, a := range asserts {
+		walk(a)
+	}
+	var out []*Term
+	if len(apps) > 12 {
+		apps = apps[:12]
+	}
+	for i := 0; i < len(apps); i++ {
+		for j := i + 1; j < len(apps); j++ {
+			a, b := apps[i], apps[j]
+			if a.Args[1] == b.Args[1] || a.Args[0].Sort != b.Args[0].Sort || mentionsBound(a) || mentionsBound(b) {
+				continue
+			}
+			if a.Args[2].Sort != b.Args[2].Sort || a.Args[1].Sort != b.Args[1].Sort {
+				continue
+			}
+			sk := tb.Fresh("hsk", a.Args[2].Sort)
+			var inRange, differ *Term
+			if sk.Sort.Kind == SBV {
+				zero := tb.BVC(bigZero, sk.Sort.Width)
+				inRange = tb.And(tb.BVCmp("bvsle", zero, sk), tb.BVCmp("bvslt", sk, a.Args[3]))
+				differ = tb.Ne(tb.Select(a.Args[1], tb.BVBin("bvadd", a.Args[2], sk)), tb.Select(b.Args[1], tb.BVBin("bvadd", b.Args[2], sk)))
+			} else {
+				inRange = tb.And(tb.Le(tb.IntC(0), sk), tb.Lt(sk, a.Args[3]))
+				differ = tb.Ne(tb.Select(a.Args[1], tb.Add(a.Args[2], sk)), tb.Select(b.Args[1], tb.Add(b.Args[2], sk)))
+			}
+			out = append(out, tb.Or(tb.Ne(a.Args[0], b.Args[0]), tb.Ne(a.Args[3], b.Args[3]), tb.And(inRange, differ), tb.Eq(a, b)))
+		}
+	}
+	return out
+}
